@@ -359,6 +359,44 @@ def run(ctx, scale=1):
                 if bad <= 5:
                     rep.tie_break("correspondence", "Dml.toInsert vs to_values/to_insert_call", {"sql": sql, "real": real_shape, "model": a["shape"]})
         rep.count("correspondence_mismatches", None, bad)
+    # ---- Tie B: Dml.flatColumn vs the real to_flat_column_type, called directly on column descriptions (option values
+    #      of every truthiness, the type with and without CHARACTER SET and other attributes, key order as written)
+    if ctx.driver:
+        C.real()        # puts the working tree on sys.path
+        from mo_sql_parsing.utils import Call as _Call, to_flat_column_type as _flat
+        VALUES = [False, True, 0, 1, "", "x", None, {"literal": "d"}, [], [1, 2], {}]
+        OPTS = ["nullable", "enforced", "default", "primary_key", "unique", "comment", "auto_increment", "collate", "character_set", "check"]
+        descs, reqs = [], []
+        for _ in range((400 if ctx.quick else 8000) * scale):
+            keys = [("name", "c%d" % rng.randint(1, 99))]
+            for o in rng.sample(OPTS, rng.randint(0, 4)):
+                keys.append((o, rng.choice(VALUES)))
+            rng.shuffle(keys)
+            kw = []
+            for o in rng.sample(["character_set", "unsigned", "zerofill", "precision", "collate"], rng.randint(0, 3)):
+                kw.append((o, rng.choice(["utf8", "latin1", True, False, 0, 5, ""])))
+            ty = rng.choice(["varchar", "char", "int", "text", "decimal"])
+            descs.append((keys, ty, kw))
+            reqs.append({"op": "flatcol", "keys": [[k, v] for k, v in keys], "type": ty, "kw": [[k, v] for k, v in kw]})
+        bad = 0
+        for (keys, ty, kw), a in zip(descs, ctx.driver.batch(reqs)):
+            if "error" in a:
+                raise C.InfraError("driver: " + a["error"])
+            call = _Call(ty, [10], dict(kw))
+            tokens = dict(keys)
+            tokens["type"] = call
+            # the position of "type" among the keys is irrelevant to the model: put it last
+            r = _flat(tokens)
+            real_keys = [[k, v] for k, v in r.items() if k != "type"]
+            real_kw = [[k, v] for k, v in call.kwargs.items()]
+            rep.count("tie", "flat-column:" + ("charset" if any(k == "character_set" for k, _ in kw) else "plain"))
+            rep.case("flatcol:" + json.dumps([keys, ty, kw], sort_keys=True, default=str))
+            if json.dumps(real_keys) != json.dumps(a["keys"]) or json.dumps(real_kw) != json.dumps(a["kw"]) or r["type"] is not call:
+                bad += 1
+                if bad <= 5:
+                    rep.tie_break("correspondence", "Dml.flatColumn vs to_flat_column_type",
+                                  {"keys": keys, "type": ty, "kw": kw, "real": {"keys": real_keys, "kw": real_kw}, "model": a})
+        rep.count("flat_column_mismatches", None, bad)
     for (sql, want, kind), o in zip(cases, outs):
         rep.case(sql)
         rep.count("statement", kind)
